@@ -214,7 +214,7 @@ pub fn run(a: &Args) {
             sink.count("stopped-early-after-timeouts");
             break;
         }
-        match scenario(s) {
+        match crate::l2::watchdog(format!("l2 {}", s), 150, move || scenario(s)) {
             Some((term, delayed, mode)) => {
                 sink.count(["drop", "cancel-read-drop", "cancel-twice-drop", "drop-vs-server-connection-close", "drop-vs-server-channel-close", "drop-while-unwinding", "drop-beside-a-backlog-of-65536+"][mode as usize]);
                 if delayed {
